@@ -1,7 +1,7 @@
 //! C11 — PRINT lays out output exactly as documented.
 
 use crate::ctx::{Ctx, Tier};
-use crate::drive::{transcript, Norm, Session, Stop};
+use crate::drive::{drain_with_replies, transcript, Norm, Session, Stop};
 use crate::model::val::{print_num, V};
 use crate::mon;
 use crate::rng::Rng;
@@ -170,6 +170,7 @@ impl C11 {
             out.push_str(s);
         };
         let nst = rng.range(1, 4);
+        let mut n_inputs = 0usize;
         let mut kinds = std::collections::BTreeSet::new();
         for _ in 0..nst {
             let mut text = String::from(if rng.coin() { "PRINT " } else { "?" });
@@ -265,6 +266,16 @@ impl C11 {
                 kinds.insert("trailing-separator");
             }
             stmts.push(t);
+            // an INPUT between the PRINTs: the prompt appears where the cursor is, and the reply's newline
+            // puts the column back to 0
+            if rng.chance(1, 6) {
+                let (st, prompt) = *rng.pick(&[("INPUT \"Q\";Z$", "Q? "), ("INPUT Z$", "? "), ("INPUT \"AB\";Z9", "AB? ")]);
+                stmts.push(st.to_string());
+                out.push_str(&format!("<INPUT {:?} caps=true>", prompt));
+                col = 0;
+                n_inputs += 1;
+                kinds.insert("INPUT-between");
+            }
         }
         // the last statement may sit in the taken arm of an IF (a trailing ; or , then stands before ELSE)
         if rng.chance(1, 3) {
@@ -298,9 +309,12 @@ impl C11 {
         let mut s = Session::new();
         s.drain(8);
         let mut got = String::new();
+        let replies: Vec<String> = (0..n_inputs).map(|_| "7".to_string()).collect();
+        let mut used = 0usize;
         for l in &script {
             let mark = s.mark();
-            if s.command(l, 64) != Stop::Stopped {
+            s.enter(l);
+            if drain_with_replies(&mut s, &replies, &mut used, 64) != Stop::Stopped {
                 ctx.violation("no-stop", "print:no-stop", "no return to prompt", &text);
                 return;
             }
